@@ -119,6 +119,10 @@ LAST_MSG = [""]
 
 
 QUIET = [0]
+# Hardening of the tie proofs against harmless rewrites (tools/LOOPS_TRANSLATOR.md, "Hardening"): canonical forms of the
+# generated Gallina.  OFF for the translators that import this module as a library (their generated files keep their
+# shape); switched on by this script's own main() only.
+CANON = [False]
 
 
 def die(msg):
@@ -1080,6 +1084,10 @@ class Gen:
                 self.die("ordering comparison on bool")
             if not is_int(t):
                 self.die("comparison on unsupported type " + show(t))
+            if CANON[0] and op in (">", ">=") and not pre:
+                # canonical comparison direction: `a > b` is `b < a` (both operands are pure values here: nothing is
+                # bound in `pre`, so the order of evaluation is irrelevant); `N > index` and `index < N` give the same text
+                op, va, vb = {">": "<", ">=": "<="}[op], vb, va
             f = {"<": "(%s <? %s)", "<=": "(%s <=? %s)", ">": "(%s >? %s)", ">=": "(%s >=? %s)", "==": "(%s =? %s)", "!=": "(negb (%s =? %s))"}[op]
             return pre, f % (va, vb), "bool"
         if op in ("<<", ">>"):
@@ -1224,6 +1232,12 @@ class Gen:
                 for (name, mut), tt in zip(pat[1], t):
                     self.declare(env, name, tt, mut, ctx)
                 line = "let '(%s) := %s in" % (", ".join(n for n, _ in pat[1]), v)
+                if CANON[0] and len(pat[1]) == 2:
+                    # canonical form of a pair pattern: projections of the (pure) value, i.e. the term that
+                    # `let r = e; let x = r.0; let y = r.1;` gives (no match on the pair: the two source shapes are convertible).
+                    # pr' is only read by the two lines that follow it, so re-using the name is harmless.
+                    x, y = pat[1][0][0], pat[1][1][0]
+                    return self.lines(p + ["let pr' := %s in" % v, "let %s := (fst pr') in" % x, "let %s := (snd pr') in" % y], pad) + "\n" + self.stmts(rest, env, ctx, ind)
             return self.lines(p + [line], pad) + "\n" + self.stmts(rest, env, ctx, ind)
         if k == "assign":
             _, lhs, op, rhs = s
@@ -1591,6 +1605,7 @@ def digit_sigs(dsrc):
 
 
 def main():
+    CANON[0] = True                                    # Generated/Loops.v only: see CANON above
     group = sys.argv[sys.argv.index("--for") + 1] if "--for" in sys.argv else None
     failed = {}
     files = {}
